@@ -68,7 +68,7 @@ def _targets(node, path=()):
             out.append(("leaf", p, c))
             if kind == "dict" and (c.get("keyf") or c.get("valuef")):
                 out.append(("dict-entry", p, c))
-            if kind == "list" and c.get("item"):
+            if kind == "list" and c.get("item") and c["item"]["kind"] != "any":  # (items of a list of AnyField are not validated)
                 out.append(("list-item", p, c))
     return out
 
@@ -553,9 +553,7 @@ def _first_bad(node, tree, ctx, path, includes_first=False):
         if c["kind"] == "schemalist":
             if v is None:
                 continue
-            if not isinstance(v, (list, tuple)):
-                return (".".join(path + (k,)), None)
-            return None  # items of a list of configurations inside a map: not modelled by this helper
+            return None  # to_python leniency for non-lists (a falsy scalar becomes an empty list); items: not modelled here
         if c["kind"] in ("virtual", "method"):
             continue
         verdict = ops.expected_after_load(c, v, ctx)  # a map is applied with load semantics (to_python, then validate)
